@@ -5,6 +5,7 @@ import GeomV.C08.ProjEqdc
 import GeomV.C08.ProjTmerc
 import GeomV.C08.ProjKrovak
 import GeomV.C08.ProjDatum
+import GeomV.C08.GoStrings
 /-!
 # `(*SR).Transformers`, `adjust_axis`, and the closure returned by `(*SR).NewTransform`
 
@@ -53,23 +54,6 @@ def adjustAxis (axis : List Char) (x y : α) : Except Err (α × α) :=
     pure (x, y)
   | _ => .error .axis
 
-/-- one rune of `strings.EqualFold(s, t)` for an ASCII rune `t`: equal, or the other ASCII case, or
-the non-ASCII members of `t`'s `unicode.SimpleFold` orbit — the Kelvin sign U+212A for `K`/`k`,
-the long s U+017F for `S`/`s` (no other ASCII letter has a third member). -/
-def foldEqAscii (c t : Char) : Bool :=
-  c == t || (t.isUpper && c == t.toLower) || (t.isLower && c == t.toUpper)
-    || ((t == 'K' || t == 'k') && c == Char.ofNat 0x212A)
-    || ((t == 'S' || t == 's') && c == Char.ofNat 0x17F)
-
-def equalFoldAscii : List Char → List Char → Bool
-  | [], [] => true
-  | c :: cs, t :: ts => foldEqAscii c t && equalFoldAscii cs ts
-  | _, _ => false
-
-/-- Go `strings.EqualFold(s, t)` for an ASCII `t` (rune by rune under simple case folding; a
-different number of runes is `false`) -/
-def goEqualFold (s t : String) : Bool := equalFoldAscii s.toList t.toList
-
 /-- `checkNotWGS` (transform.go, after fix b165df1: the destination's datum code is compared with
 `"WGS84"` case-insensitively, so the `wgs84` that the WKT reader writes counts as WGS84) -/
 def checkNotWGS (s d : SR α) : Bool :=
@@ -78,8 +62,6 @@ def checkNotWGS (s d : SR α) : Bool :=
 /-- the pre-fix decision (`dest.DatumCode != "WGS84"`, exact): kept for the negation theorem -/
 def checkNotWGSUnfixed (s d : SR α) : Bool :=
   (s.datum.dtype = pjd3Param || s.datum.dtype = pjd7Param) && !(d.datumCode == "WGS84")
-
-def enu : List Char := ['e', 'n', 'u']
 
 /-- `transform3`: one point with height `z` from source to dest without the WGS84 workaround;
 returns the transformed point and its height (fix ac60a9b) -/
